@@ -57,6 +57,13 @@ theorem cleanup_spec (preserve : Bool) (install : Path) (ds : List Path) {fs : L
     exact ⟨fun h => ⟨h.1.1, h.2, h.1.2⟩, fun h => ⟨⟨h.1, h.2.2⟩, h.2.1⟩⟩
   · simp [cleanup]
 
+theorem dataPathsOf_none (home : Path) (v : CarVar) : dataPathsOf home v = none ↔ v = .other := by
+  cases v <;> simp [dataPathsOf]
+
+theorem dataPathsOf_spec (home : Path) (v : CarVar) {ds : List Path} (h : dataPathsOf home v = some ds) :
+    (v = .absent → ds = [home ++ [0]]) ∧ (∀ p, v = .str p → ds = [p]) ∧ (∀ ps, v = .list ps → ds = ps) := by
+  cases v <;> simp [dataPathsOf] at h <;> subst h <;> simp
+
 end Mechanic.Cleanup
 
 namespace Mechanic.Launcher
